@@ -234,7 +234,18 @@ impl<'a> Interp<'a> {
                     }
                     _ => return unsup("size of state"),
                 },
-                (n, _) => return unsup(format!("filter {n} has no reference semantics here")),
+                (n, _) => {
+                    if self.estimate {
+                        // cost estimate: an unknown filter may grow its input (escape: up to 6x)
+                        let r = v.render();
+                        if r.len() * 6 > MAX_OUT {
+                            return Err(Stop::Budget);
+                        }
+                        RV::Str(r.repeat(6))
+                    } else {
+                        return unsup(format!("filter {n} has no reference semantics here"));
+                    }
+                }
             };
         }
         Ok(v)
@@ -302,8 +313,9 @@ impl<'a> Interp<'a> {
             Coll::Range(a, b) => {
                 let a = self.int_arg(sc, a)?;
                 let b = self.int_arg(sc, b)?;
-                if b.saturating_sub(a) > 100_000 {
-                    return unsup("huge range");
+                if b.saturating_sub(a) > 10_000 {
+                    // ranges beyond 10^4 elements are outside every property (unbounded work by design)
+                    return Err(Stop::Budget);
                 }
                 Ok((a..=b).map(RV::Int).collect())
             }
@@ -318,6 +330,8 @@ impl<'a> Interp<'a> {
         };
         match v {
             RV::Int(i) => Ok(i),
+            // cost estimate: the engine also accepts strings that spell an integer
+            RV::Str(s) if self.estimate && s.parse::<i64>().is_ok() => Ok(s.parse().unwrap()),
             _ => unsup("non-integer loop attribute"),
         }
     }
@@ -444,6 +458,54 @@ impl<'a> Interp<'a> {
                 } - 1;
                 self.out.push_str(&v.to_string());
                 frame_set(&mut self.counters, name, RV::Int(v));
+            }
+            Node::If { arms, else_, .. } if self.estimate => {
+                // cost estimate: a condition the reference cannot decide makes every remaining
+                // branch possible; run them all (over-approximation of work and of bindings)
+                for (i, (c, body, _)) in arms.iter().enumerate() {
+                    match self.cond(sc, c) {
+                        Ok(true) => return self.branch(body, sc),
+                        Ok(false) => {}
+                        Err(Stop::Budget) => return Err(Stop::Budget),
+                        Err(_) => {
+                            for (_, b, _) in &arms[i..] {
+                                self.branch(b, sc)?;
+                            }
+                            if let Some((b, _)) = else_ {
+                                self.branch(b, sc)?;
+                            }
+                            return Ok(Flow::Normal);
+                        }
+                    }
+                }
+                if let Some((body, _)) = else_ {
+                    return self.branch(body, sc);
+                }
+            }
+            Node::Unless { cond, body, else_, .. } if self.estimate => {
+                match self.cond(sc, cond) {
+                    Ok(false) => return self.branch(body, sc),
+                    Ok(true) => {
+                        if let Some((b, _)) = else_ {
+                            return self.branch(b, sc);
+                        }
+                    }
+                    Err(Stop::Budget) => return Err(Stop::Budget),
+                    Err(_) => {
+                        self.branch(body, sc)?;
+                        if let Some((b, _)) = else_ {
+                            self.branch(b, sc)?;
+                        }
+                    }
+                }
+            }
+            Node::Case { whens, else_, .. } if self.estimate => {
+                for w in whens {
+                    self.branch(&w.body, sc)?;
+                }
+                if let Some((b, _)) = else_ {
+                    self.branch(b, sc)?;
+                }
             }
             Node::If { arms, else_, .. } => {
                 for (c, body, _) in arms {
